@@ -63,7 +63,7 @@ var ringAssembly = overlayTest{Name: "ring-assembly-small-alphabet", Level: "bou
 	Bound: "bounded stand-in for the ring assembly: the real cleanupNewRing (kmpDeduplicate + splitRing) and kmpDeduplicate on EVERY ring without equal neighbours of length 0..15 (quick) / 0..18 (thorough) over 3 pixel centres and 0..10 / 0..12 over 4, as outer and as inner ring, plus 100000 / 1500000 pseudo-random zig-zag rings of 4..40 vertices over 6 points and 600000 / 8000000 word rings (a random word repeated and reversed, 8..47 vertices); per input: no panic, returns within 5 s, every returned vertex is an input vertex"}
 
 var c05Rings = overlayTest{Name: "ring-clauses-small", Level: "bounded", Src: "c05_rings_small_test.go", PkgRel: "snap", Run: "^TestGvcC05RingsSmall$",
-	Bound: "bounded stand-in for the ring clauses of C05 (ring assembly, outside the verifier's reach): the real SnapPolygon on every single ring of 3..5 (quick) / 3..6 (thorough) vertices over a 3x3 lattice of pixel centres and on 30000 / 400000 random polygons of 1..3 rings over a 6x6 lattice, id sets {1} and {0,1}, all four flag combinations; per returned polygon: orientation of rings with non-zero area, no repeated closing vertex, no equal neighbours, no vertex visited twice, at least three vertices without keep-points-and-lines, and the with/without relation of that option. Dyadic grid: float/integer conversions are exact, defect F4 is outside this domain"}
+	Bound: "bounded stand-in for the ring clauses of C05 (ring assembly, outside the verifier's reach): the real SnapPolygon on every single ring of 3..5 (quick) / 3..6 (thorough) vertices over a 3x3 lattice of pixel centres and on 30000 / 400000 random polygons of 1..3 rings over a 6x6 lattice, id sets {1} and {0,1}, all four flag combinations; per returned polygon: orientation of rings with non-zero area, no repeated closing vertex, no equal neighbours, no vertex visited twice, at least three vertices without keep-points-and-lines, and the with/without relation of that option. Plus 4000 / 60000 spiky rings each on NetherlandsRDNewQuad id 14 and WebMercatorQuad id 17 for the clauses decidable exactly on floats (no vertex twice, no equal neighbours, at least three vertices): the domain of the repaired defect F4"}
 
 var c08Independence = overlayTest{Name: "alone-vs-together-small", Level: "bounded", Src: "c08_independence_small_test.go", PkgRel: "snap", Run: "^TestGvcC08Independence$",
 	Bound: "bounded stand-in for the second sentence of C08 (a relation between two executions): the real SnapPolygon on every single ring of 3..5 (quick) / 3..6 (thorough) vertices over a 3x3 lattice of centres, corners and off-centre points, and on 30000 / 400000 random polygons of 1..3 rings over a 96x96 lattice, all four flag combinations, on a round dyadic grid with two tile matrices: result[id] for {id} alone must equal result[id] for {0,1}"}
@@ -94,6 +94,7 @@ func init() {
 			"the keep-points-and-lines relation between two runs (with and without the option): only the bounded stand-in ring-clauses-small"},
 		Assumptions: []string{"preconditions of SnapPolygon's contract", "matchInnersToPolygons is trusted for: never fewer polygons than it was given"},
 		Extra:       func(cc *checkCtx) *extraResult { return cc.runOverlayTests([]overlayTest{c05Rings}) },
+		Demos:       []findingDemo{{ID: "F4", Src: "f4_repeated_vertex_test.go", PkgRel: "snap", Run: "^TestGvcFindingF4$"}},
 	}
 	propertyPlans["C03"] = &PropertyPlan{ID: "C03",
 		NotDecided: []string{
